@@ -34,6 +34,26 @@ CLAIMED = {
    text="PaletteContainer as an array for both configurations: histories of 3 (quick) / 4 Set(i,v) with symbolic i, v from the initial state (length 8) crossing 0->4 bits (blocks) and 0->1->2->3 bits (biomes); containers built from saved palette+data (lengths 16/64, palettes of 1,16,17,32,33 blocks and 1..8 biomes, symbolic pairwise-distinct ids) read as palette[unpack(data,i)] and preserved across the next upgrade; wire form judged by an independent paletted-container decoder and read back into fresh and used containers with exact consumption.",
    note="length 4096 and palettes of 34..256+ entries outside; ids assumed in 0..2^14; block.BitsPerBlock / biome.BitsPerBiome imported natively from the current tree.",
    ref="6 C12"),
+ "C10": dict(
+   text="CFB8 against a byte-at-a-time reference with the block cipher as an uninterpreted function E (so the result holds for every 16-byte block cipher and key, AES included), 16 symbolic IV bytes, symbolic message of total length T in {0,1,2,15,16,17,31..35,48,49} (quick) / every T<=50 (thorough), split over 2 (quick) / 3 successive XORKeyStream calls at every split point, each call in place, into a disjoint buffer allocated before or after the source, or into a larger buffer; encrypt, decrypt and decrypt(encrypt(m))==m. The unsafe.Pointer aliasing tests are evaluated on synthetic addresses.",
+   note="partially overlapping dst/src excluded (cipher.Stream contract); messages > 50 bytes outside; the encrypted Conn clause is not covered yet; native replay uses AES-128 with a fixed key for E.",
+   ref="6 C10"),
+ "C14": dict(
+   text="One WriteSector step from an arbitrary valid region state: the real Load on an in-memory file whose header has K<=2 (quick) / 3 live chunks at coordinates from a fixed set with symbolic (sector,count) constrained only by the Anvil validity predicate inside S=6/8 sectors, then a write of length in {1,4092,4093} (quick) / {1,4091..4093,8187..8189} to a live or fresh coordinate: file is a valid Anvil image by an independent parser, written chunk and all others read back, absent stay absent, a fresh Load sees the same offsets and timestamps; over-limit writes refused without any write; 2- and 3-step histories from CreateWriter with PadToFullSector and reload. Validity is assumed and re-established, so histories of any length within the bounds are covered by induction.",
+   note="clock constant within one WriteSector (vp.FreezeClock); K, S, coordinate set and length set bounded as stated; os.File not used (in-memory ReadWriteSeeker with and without WriterAt).",
+   ref="6 C14"),
+ "C15": dict(
+   text="Crash isolation: same symbolic pre-states as C14 (K<=2,S=5 quick; K<=3,S=7 thorough); the physical writes of one WriteSector are recorded and the process stops after every prefix of them, the next write torn at 0 bytes, at 512-byte boundaries and one byte short; the real Load of every such image succeeds and every other chunk reads back its bytes, absent chunks stay absent.",
+   note="writes reach the disk in program order; single-operation crash histories.",
+   ref="6 C15"),
+ "C16": dict(
+   text="RCON: WritePacket bytes equal the little-endian reference layout for id, type full int32 and payloads of 0..4 (quick) / 0..8 arbitrary bytes, ReadPacket returns the triple and consumes exactly one frame of two; declared length fully symbolic: below 10 or above 4096 rejected for every int32, accepted at 10, 11, 4095, 4096; login through the real DialRCON (net.Dial and rand stubbed) against the real AcceptLogin over an in-memory duplex with symbolic passwords of length 0..3: success iff equal; Cmd/AcceptCmd/RespCmd/Resp with arbitrary response (id,type): accepted iff id matches and type is 0.",
+   note="encoding/binary.Read/Write replaced by an exact type-walk model with io.ReadFull semantics; native replay of login uses a loopback TCP listener.",
+   ref="6 C16"),
+ "C18": dict(
+   text="NameToUUID: MD5 digest arbitrary (stub returns unconstrained bytes tied to the hashed byte sequence), result == digest of exactly \"OfflinePlayer:\"+name with version 3 / variant bits, names of 0..4 arbitrary bytes. authDigest, both copies (bot, server/auth, in-package): for every 20-byte SHA-1 digest (quick: at most 4 leading 00/ff bytes and 3 trailing zero bytes; thorough: all non-zero digests) the string equals an independent signed-hex rendering (subtract-with-borrow two's complement, nibble hex, zero trim), and the hashed bytes are serverID++secret++key in order. VerifySignature: accepted iff the (stubbed, arbitrary) RSA verification succeeded.",
+   note="MD5/SHA-1/SHA-256/RSA/x509 are stubs (trusted stdlib); all-zero digest excluded; native replay of digest counterexamples is a bounded search over 2^19 inputs; PEM framing of the hashed key not checked.",
+   ref="6 C18"),
 }
 
 NA = {
